@@ -49,7 +49,7 @@ fn payload(d: &str) -> Vec<u8> {
 }
 
 impl Conc {
-    pub fn new(n: usize, cleanup: bool) -> Conc {
+    pub fn new(n: usize, cleanup: bool, rng: &mut Rng) -> Conc {
         // (one more client than the case uses: the fresh replica of the final walk)
         let store = new_store(n + 1);
         if cleanup {
@@ -58,17 +58,41 @@ impl Conc {
             let now = std::time::SystemTime::now().duration_since(std::time::UNIX_EPOCH).unwrap().as_secs();
             store.lock().unwrap().clock = now - 400 * 86400;
         }
-        let mut servers = Vec::new();
         taskchampion::server::verif::set_rand(Some(255));
-        for i in 0..n {
-            let s = block_on(VerifCloud::new(store.clone(), i, b"conc secret".to_vec())).expect("cloud server");
-            servers.push(Box::into_raw(Box::new(s)));
-        }
+        // the clients open the (empty) store at the same time, their requests interleaved at random:
+        // whoever creates the salt, everybody must end up with the same key
         {
             let mut st = store.lock().unwrap();
             for i in 0..n {
                 st.permits[i] = Some(0);
             }
+        }
+        let mut opening: Vec<Option<Pin<Box<dyn Future<Output = Result<VerifCloud, taskchampion::Error>>>>>> = Vec::new();
+        for i in 0..n {
+            opening.push(Some(Box::pin(VerifCloud::new(store.clone(), i, b"conc secret".to_vec()))));
+        }
+        let mut opened: Vec<Option<VerifCloud>> = (0..n).map(|_| None).collect();
+        let mut guard = 0;
+        while opening.iter().any(|o| o.is_some()) && guard < 10_000 {
+            guard += 1;
+            let todo: Vec<usize> = (0..n).filter(|i| opening[*i].is_some()).collect();
+            let i = *rng.pick(&todo[..]);
+            {
+                let mut st = store.lock().unwrap();
+                st.permits[i] = Some(1);
+                st.at_gate[i] = false;
+            }
+            let mut fut = opening[i].take().unwrap();
+            let st2 = store.clone();
+            match poll_until(&mut fut, &|| st2.lock().unwrap().at_gate[i]) {
+                Some(r) => opened[i] = Some(r.expect("cloud server")),
+                None => opening[i] = Some(fut),
+            }
+            store.lock().unwrap().permits[i] = Some(0);
+        }
+        let mut servers = Vec::new();
+        for o in opened {
+            servers.push(Box::into_raw(Box::new(o.expect("client opened"))));
         }
         let logpos = store.lock().unwrap().log.len();
         let mut c = Conc { store, servers, futs: Vec::new(), syms: HashMap::new(), nver: 0, logpos, first_parent: None, stats: HashMap::new() };
